@@ -698,3 +698,41 @@ def rf64(run):
                               '(for a call offset: the patched call jumps to a wrong address)' % (x['callee'], F.src(a)[:50], t.s, w, bits),
                               line=x['l'])
     return n
+
+
+# ---------------------------------------------------------------------------------------------
+# RF77: direct-call patching uses the address of existing machine code only
+# ---------------------------------------------------------------------------------------------
+
+def rf77(run):
+    from rf_proto import dominating_conditions
+    rule = 'RF77'
+    run.rule(rule, 'x86-64 target_change_to_direct_calls: the new target of a recorded call is the callee\'s machine_code; a function that has '
+                   'not been generated yet has none (NULL).  Every _MIR_change_code in the function is dominated by a test that the '
+                   'address taken from machine_code is not NULL')
+    tu = run.tu('gen')
+    f = tu.func('target_change_to_direct_calls')
+    run.functions_analysed.add(('gen', f.name))
+    cfg = f.cfg
+    addrs = [d['n'] for x in f.walk() if x['k'] == 'DeclStmt' for d in x['decls'] if d.get('init') is not None and F.src(F.strip(d['init'])).endswith('->machine_code')]
+    if not addrs:
+        raise F.AnalysisBroken('target_change_to_direct_calls: the variable holding machine_code was not found')
+    a = addrs[0]
+    n = 0
+    for x in f.walk():
+        if x['k'] == 'CallExpr' and x.get('callee') == '_MIR_change_code':
+            conds = dominating_conditions(cfg, cfg.block_of(x), selective=True)
+            ok = False
+            for c, t in conds:
+                cc = c.replace(' ', '').strip('()')
+                if (cc in ('%s==0' % a, '%s==NULL' % a, '!%s' % a) and not t) or (cc in ('%s!=0' % a, '%s!=NULL' % a, a) and t):
+                    ok = True
+            n += 1
+            run.ob(rule, (x['l'],), ok, {'site': '%s:%d' % (f.relfile(), x['l']), 'patch': F.src(x)[:70], 'address variable': a})
+            if not ok:
+                run.violation(rule, f, 'patch with an unchecked address', '`%s` can run with %s == NULL (the callee has no machine code yet): the call '
+                              'is redirected to address 0 when the value passes the rel32 range test or for the indirect form' % (F.src(x)[:60], a),
+                              line=x['l'])
+    if n == 0:
+        raise F.AnalysisBroken('target_change_to_direct_calls: no _MIR_change_code call')
+    return n
